@@ -300,6 +300,26 @@ def cursor_loops_advance(ctx, RULE, P) -> None:
             # a nested function that rebinds the names (nonlocal) makes the local reasoning void: leave such loops alone
             if any(isinstance(x, (ast.Nonlocal, ast.Global)) and set(x.names) & names for x in ast.walk(fi.node)):
                 continue
+            # a loop that can also be left from inside under a condition that changes by itself (it reads a call's result: the
+            # clock, a queue, the file system) is not a pure cursor loop: its termination is that exit's business
+            par_ = {}
+            for a_ in ast.walk(loop):
+                for b_ in ast.iter_child_nodes(a_):
+                    par_[b_] = a_
+            from_calls = {t_.id for x in ast.walk(loop) if isinstance(x, (ast.Assign, ast.AnnAssign, ast.AugAssign, ast.NamedExpr)) and getattr(x, "value", None) is not None and any(isinstance(c_, ast.Call) for c_ in ast.walk(x.value)) for t_ in ast.walk(x.targets[0] if isinstance(x, ast.Assign) else x.target) if isinstance(t_, ast.Name)}
+            dynamic_exit = False
+            for x in ast.walk(loop):
+                if not isinstance(x, (ast.Break, ast.Return, ast.Raise)):
+                    continue
+                y, inner_loop = x, False
+                while y in par_ and par_[y] is not loop:
+                    y = par_[y]
+                    if isinstance(y, (ast.For, ast.While)) and isinstance(x, ast.Break):
+                        inner_loop = True
+                    if isinstance(y, ast.If) and not inner_loop and (any(isinstance(c_, ast.Call) for c_ in ast.walk(y.test)) or any(isinstance(c_, ast.Name) and c_.id in from_calls for c_ in ast.walk(y.test))):
+                        dynamic_exit = True
+            if dynamic_exit:
+                continue
             n += 1
             bad: list[int] = []
 
